@@ -1,6 +1,7 @@
 /- Driver/Iff.lean — IFF-style chunk files with an ID3 chunk (AIFF, WAVE, DSDIFF): save, delete, walk -/
 import MutagenModel.Model.Container.Iff
 import MutagenModel.Model.Container.IffM
+import MutagenModel.Model.Container.IffLoadM
 import Driver.Util
 import Driver.FlacC
 namespace Driver
@@ -51,6 +52,15 @@ def iffmOp (a : Args) : String :=
       | "save" => showResult (saveEntry d B L (a.nat "vmaj" 4) (a.bytes "frames") (padOfZ a) e s)
       | "delete" => showResult (deleteEntry d B L e s)
       | _ => "bad-op"
+
+/-- `iffload fmt=… data=… [fail=i:err] [short=i:k]`: the tag class constructor up to the ID3 header (Model/Container/IffLoadM.lean)
+on any bytes, with the entry point's `convert_error` -/
+def iffloadOp (a : Args) : String :=
+  match iffDialect (a.str "fmt") with
+  | none => "bad-op"
+  | some d =>
+    let s : FS := { data := a.bytes "data", pos := a.nat "pos" 0 }
+    showResult (loadEntry d (envOf a) s) (fun n => s!"off={n}")
 
 def iffOp (a : Args) : String :=
   let ex (r : Except PyErr Bytes) : String :=
